@@ -77,8 +77,7 @@ def main(pid, argv):
         want = spec(*f)
         if il != want:
             nf += 1
-            if nf <= 3:
-                ck.fail("activation", c, "the service ended up on %s, the statement says %s" % (il, want), impl=il, model=ml)
+            ck.fail("activation", c, "the service ended up on %s, the statement says %s" % (il, want), impl=il, model=ml)
         elif il != ml:
             ck.tie_broken("listener choice differs from the model", c, il, ml)
     ck.extra["failing_inputs_total"] = nf
